@@ -347,12 +347,24 @@ printf("debug> macros_get_char() tokens_get_char(?) ungetc %d %d '%c'\n",
 void macros_strip(char *macro)
 {
   char *s = macro;
+  bool in_quote = false;
+  bool in_tick = false;
 
-  // Remove ; and // comments.
+  // Remove ; and // comments (but not inside of a quoted string or char).
   while (*s != 0)
   {
-    if (*s == ';') { *s = 0; break; }
-    if (*s == '/' && *(s+1) == '/') { *s = 0; break; }
+    if (s == macro || *(s - 1) != '\\')
+    {
+      if (*s == '"' && in_tick == false) { in_quote = !in_quote; }
+      if (*s == '\'' && in_quote == false) { in_tick = !in_tick; }
+    }
+
+    if (in_quote == false && in_tick == false)
+    {
+      if (*s == ';') { *s = 0; break; }
+      if (*s == '/' && *(s+1) == '/') { *s = 0; break; }
+    }
+
     s++;
   }
 
@@ -371,6 +383,8 @@ int macros_parse(AsmContext *asm_context, int macro_type)
   int ch;
   int parens = 0;
   int param_count = 0;
+  bool in_quote = false;
+  bool in_tick = false;
 
   // First pull the name out.
   parens = macros_parse_token(asm_context, name, 128, macro_type);
@@ -499,9 +513,19 @@ printf("debug> macros_parse() name_test='%s' %d\n", name_test, index);
       }
     }
 
+    // A ; or // inside of a quoted string or char is not a comment.
+    if (ptr == 0 || macro[ptr - 1] != '\\')
+    {
+      if (ch == '"' && in_tick == false) { in_quote = !in_quote; }
+      if (ch == '\'' && in_quote == false) { in_tick = !in_tick; }
+    }
+
+    if (ch == '\n') { in_quote = false; in_tick = false; }
+
     // If there is a comment on this line of the macro, ignore the rest of
     // of the line.
-    if (ch == ';' || (ptr > 0 && ch == '/' && macro[ptr-1] == '/'))
+    if (in_quote == false && in_tick == false &&
+        (ch == ';' || (ptr > 0 && ch == '/' && macro[ptr-1] == '/')))
     {
       if (macro[ptr-1] == '/') { ptr--; }
 
@@ -559,7 +583,8 @@ printf("debug> macros_parse() name_test='%s' %d\n", name_test, index);
       }
     }
 
-    if (ch == '*' && ptr > 0 && macro[ptr - 1] == '/')
+    if (in_quote == false && in_tick == false &&
+        ch == '*' && ptr > 0 && macro[ptr - 1] == '/')
     {
       macros_strip_comment(asm_context);
       ptr--;
